@@ -34,7 +34,8 @@ def make_reverts():
         os.makedirs(d, exist_ok=True)
         patch = sh("git -C %s show %s --format= | (cd %s && git apply -R --check - ) ; git -C %s diff %s %s~1" % (REPO, h, REPO, REPO, h, h)).stdout
         patch = sh("git -C %s diff %s %s~1" % (REPO, h, h)).stdout
-        open(os.path.join(d, "patch.diff"), "w").write(patch)
+        if not os.path.exists(os.path.join(d, "patch.diff")):      # a hand-adjusted revert (later commits nearby) is kept
+            open(os.path.join(d, "patch.diff"), "w").write(patch)
         meta = {"property": prop, "origin": "revert of /repo commit %s (%s)" % (h, subj),
                 "needs": "see the fixed: line of KNOWN_FINDINGS.txt for the failing input",
                 "demonstration": "the check's replay file"}
@@ -58,7 +59,12 @@ def main():
         props = meta["property"] if isinstance(meta["property"], list) else [meta["property"]]
         r = sh("git -C %s apply %s" % (REPO, os.path.join(d, "patch.diff")))
         if r.returncode != 0:
+            # later commits touched neighbouring lines: three-way merge against the recorded blobs
+            r = sh("git -C %s apply --3way %s" % (REPO, os.path.join(d, "patch.diff")))
+        if r.returncode != 0:
+            sh("git -C %s checkout HEAD -- ." % REPO)
             results[name] = "patch does not apply: " + r.stdout[-200:]
+            print(name, results[name], flush=True)
             continue
         try:
             out = {}
@@ -68,7 +74,7 @@ def main():
                 out[p] = ("CAUGHT " + v[0].split("replay=")[1]) if v else "MISSED (exit %d)" % c.returncode
             results[name] = out
         finally:
-            sh("git -C %s checkout -- ." % REPO)
+            sh("git -C %s checkout HEAD -- ." % REPO)
         print(name, results[name], flush=True)
     json.dump(results, open(os.path.join(ROOT, "build", "selftest.json"), "w"), indent=1)
 
